@@ -857,13 +857,50 @@ func suiteCatchmentWalk(c *Ctx) {
 		}
 		n := ref.cm.n()
 		for v := 0; v < 6; v++ {
-			for k := 0; k < c.N(4, 24); k++ {
+			for k := 0; k < c.N(8, 24); k++ {
 				bits := make([]bool, n)
 				p := []float64{0, 1, 0.15, 0.85, 0.5}[r.Intn(5)]
 				for i := range bits {
 					bits[i] = r.Chance(p)
 				}
 				at := r.Intn(n)
+				if k%4 == 0 || k%4 == 3 {
+					// EXACT limits: among a few dozen (set, action) pairs prefer one whose prospective value, computed as the
+					// model computes it (current value + reported change, in floating point), differs from the value the
+					// accepted state holds — there "would be exactly the limit" is decided by how the sum is rounded
+					for tries := 0; tries < 40; tries++ {
+						cb := make([]bool, n)
+						pp := []float64{0, 1, 0.15, 0.85, 0.5}[r.Intn(5)]
+						for i := range cb {
+							cb[i] = r.Chance(pp)
+						}
+						ca := r.Intn(n)
+						cn := append([]bool(nil), cb...)
+						cn[ca] = !cn[ca]
+						v1 := ref.at(cn).totals[v]
+						ref.at(cb)
+						ref.cm.m.Initialise(0)
+						for i, b := range cb {
+							if b {
+								ref.cm.m.SetManagementAction(i, true)
+							}
+						}
+						v0 := ref.cm.total(v)
+						residue := 0.0
+						if pn := protect(func() {
+							ref.cm.tryRandom(ca)
+							residue = v0 + ref.cm.changes()[v] - v1
+							ref.cm.m.RevertChange()
+						}); pn != "" {
+							break
+						}
+						if residue != 0 && (k%4 == 0) == (residue > 0) {
+							bits, at = cb, ca
+							c.Stat("boundary probe: exact limit at a pair whose float sum carries a residue")
+							break
+						}
+					}
+				}
 				next := append([]bool(nil), bits...)
 				next[at] = !next[at]
 				lim := ref.at(next).totals[v]
